@@ -10,7 +10,8 @@ package main
 //   too_few       fewer than t active points ⇒ error, output untouched
 //   agg_order     aggregating the received Shamir shares in another order gives the same share
 //   history / receiver-reuse probes: see c15_history.go; wrapped-difference points and N = 7, 8
-//                 with 61-bit moduli: see c15_wide.go
+//                 with 61-bit moduli: see c15_wide.go; both documented forms of NewCombiner's `others`
+//                 (own point included / excluded / duplicated) x every t incl. t = N: see c15_combiner.go
 //   reconstruct_collide   at points that are distinct non-zero uint64s but collide modulo one of
 //                 the primes (the hypothesis the Lean reconstruction proof forces): the two colliding
 //                 parties' GenAdditiveShare must return an error and leave the output untouched, the
@@ -557,6 +558,7 @@ func genC15(c *Ctx) {
 	c15History(c, sets)
 	c15WrapDiff(c, sets)
 	c15Wide(c, sets)
+	c15CombinerForms(c, sets)
 }
 
 // c15Boundary: the points the proof excludes — distinct non-zero uint64s that collide modulo a
